@@ -319,6 +319,55 @@ def find_key_probe():
     return out
 
 
+def writers_probe():
+    """the REAL Input.unget_bytes / Input._nonblocking_read on small buffers and small reads (a pipe as the stream): the failing input for a
+    refuted obligation of the buffer-writer contracts (contracts/findkey.py), if there is one"""
+    import os
+    from curtsies.input import Input
+
+    class S:
+        def __init__(self, fd):
+            self.fd = fd
+
+        def fileno(self):
+            return self.fd
+    out = []
+    for buf in (b"", b"x", b"ab", b"\x1b[", b"abcdefg"):
+        for data in (b"q", b"\x1b[A", b"", b"12345678", "\u20ac".encode("utf-8")):
+            want = [bytes([b]) for b in buf + data]
+            inp = Input.__new__(Input)
+            inp.unprocessed_bytes = [bytes([b]) for b in buf]
+            try:
+                inp.unget_bytes(data)
+                got = list(inp.unprocessed_bytes)
+            except Exception as e:      # noqa: BLE001
+                got = f"raised {type(e).__name__}: {e}"
+            if got != want:
+                out.append(("C03.unget_bytes", dict(buffer=buf.hex(), data=data.hex()), f"buffer {buf!r} + unget_bytes({data!r}) -> {got}, expected {want}"))
+            if not data:
+                continue
+            r, w = os.pipe()
+            try:
+                os.write(w, data)
+                inp = Input.__new__(Input)
+                inp.in_stream = S(r)
+                inp.unprocessed_bytes = [bytes([b]) for b in buf]
+                try:
+                    n = inp._nonblocking_read()
+                    got = (n, list(inp.unprocessed_bytes))
+                except Exception as e:      # noqa: BLE001
+                    got = f"raised {type(e).__name__}: {e}"
+                if got != (len(data), want):
+                    out.append(("C03.nonblocking_read", dict(buffer=buf.hex(), data=data.hex()),
+                                f"buffer {buf!r}, {data!r} readable: _nonblocking_read() -> {got}, expected {(len(data), want)}"))
+            finally:
+                os.close(r)
+                os.close(w)
+            if len(out) >= 3:
+                return out
+    return out
+
+
 def input_bursts(check, tier):
     """the decoder as Input drives it on a pasted burst: a multi-byte character or an escape sequence straddling the 1024- / 2048-byte
     read boundary inside a paste (paste_threshold set, so the paste loop fetches the rest) must come out as itself - the rig and the
@@ -529,6 +578,8 @@ def locale_modes(check, tier):
 def attach_probes():
     import contracts.findkey as FK
     FK.find_key.probe = find_key_probe
+    for c in FK.WRITERS:
+        c.probe = writers_probe
 
 
 def run(check, tier, seed):
@@ -536,6 +587,8 @@ def run(check, tier, seed):
     import contracts.findkey as FK
     attach_probes()
     verify(FK.find_key, tier, check, prefix="C03")
+    for c in FK.WRITERS:        # how bytes get into the buffer: appended behind what is waiting, one element per byte, in order
+        verify(c, tier, check, prefix="C03")
     whole_sequences(check, tier)
     encoding_aliases(check, tier)
     locale_modes(check, tier)
